@@ -47,7 +47,7 @@ ASSUMPTIONS = [
 TECHNIQUE = ("Coq proofs over hand-written Gallina models of six importers (per-importer row-to-transaction theorems against "
              "Spec/ImpSpecA.v) + byte-exact model/implementation correspondence on generated statements + executable "
              "specification (re-print through knut's own parser, independent row facts) evaluated on the binary's output")
-LEVEL_TEXT = ("C13_<importer>_faithful (Coq): for every list of well-formed rows the importer model emits exactly one "
+LEVEL_TEXT = ("C13_<importer>_faithful and C13_<importer>_end_to_end (Coq): for every list of well-formed rows the importer model emits exactly one "
               "single-booking transaction per booking row, in order, on the row's date, whose effect on the import account is "
               "the row's signed amount in the row's currency (viac: one price per non-zero daily value), and nothing else; "
               "C13_print_balanced, C13_description_verbatim and the byte-level witness C13_quote_breaks_header for the "
